@@ -29,6 +29,38 @@ fn next_lower(region: RegionId, dr: u8) -> Option<u8> {
     (0..dr).rev().find(|d| rr::dr_def(region, *d).is_some() && !(region == RegionId::EU868 && *d == 6))
 }
 
+/// Three-valued answer to "which lower data rate exists" under a channel mask.
+#[derive(Clone, Copy, PartialEq, Eq, Debug)]
+enum Lower {
+    Dr(u8),
+    None,
+    /// exactly one 125 kHz channel is enabled: whether a 125 kHz rate "exists" then is not stated
+    Ambiguous,
+}
+
+/// Next lower data rate the enabled channels can carry. Dynamic plans: the mask does not matter here.
+/// Fixed plans: a rate exists when its bandwidth class has enabled channels (C09 forbids any other step).
+fn next_lower_masked(region: RegionId, dr: u8, snap: Option<&crate::snapshot::Snap>) -> Lower {
+    let Some(s) = snap.filter(|_| region.is_fixed()) else {
+        return next_lower(region, dr).map(Lower::Dr).unwrap_or(Lower::None);
+    };
+    let n125 = (0..64).filter(|c| s.mask_bit(*c)).count();
+    let n500 = (64..72).filter(|c| s.mask_bit(*c)).count();
+    for d in (0..dr).rev() {
+        let Some(def) = rr::dr_def(region, d) else { continue };
+        if def.bw == 500 {
+            if n500 >= 1 {
+                return Lower::Dr(d);
+            }
+        } else if n125 >= 2 {
+            return Lower::Dr(d);
+        } else if n125 == 1 {
+            return Lower::Ambiguous;
+        }
+    }
+    Lower::None
+}
+
 impl Monitor for Mon {
     fn after_op(&mut self, w: &mut World, rec: &OpRecord, stats: &mut RunStats) -> Option<Violation> {
         if rec.result.is_panic() {
@@ -53,19 +85,6 @@ impl Monitor for Mon {
         }
         if self.dr.is_none() {
             self.dr = rec.snap_before.as_ref().map(|s| s.data_rate);
-        }
-        // Fixed plans: when the channel mask disables channels, whether "a lower data rate exists" depends on
-        // which bandwidth class still has channels (the statement does not say how): count-dependent
-        // predictions are suspended while such a mask is in force.
-        if region.is_fixed() {
-            if let Some(s) = &rec.snap_before {
-                if s.mask.iter().any(|b| *b != 0xFF) {
-                    if !self.suspended {
-                        stats.bump("probe.suspended-under-partial-fixed-mask");
-                    }
-                    self.suspended = true;
-                }
-            }
         }
         match &rec.op {
             Op::SetAdr(on) => {
@@ -117,8 +136,12 @@ impl Monitor for Mon {
                     if p.adr() != self.adr {
                         return Some(Violation::new("C12.adr-bit", "", format!("{desc}: ADR bit is {}", p.adr())));
                     }
-                    if !self.suspended {
-                        let lower_exists = self.dr.and_then(|d| next_lower(region, d)).is_some();
+                    let lower = self.dr.map(|d| next_lower_masked(region, d, rec.snap_before.as_ref())).unwrap_or(Lower::Ambiguous);
+                    if lower == Lower::Ambiguous {
+                        stats.bump("probe.lower-rate-ambiguous-under-mask");
+                    }
+                    if !self.suspended && lower != Lower::Ambiguous {
+                        let lower_exists = lower != Lower::None;
                         let want = self.adr && self.cnt >= 64 && lower_exists;
                         if p.bit6() != want {
                             return Some(Violation::new(
@@ -177,9 +200,16 @@ impl Monitor for Mon {
                 }
                 self.cnt += 1;
                 if self.adr && !self.suspended && self.cnt >= 96 && (self.cnt - 64) % 32 == 0 {
-                    if let Some(l) = self.dr.and_then(|d| next_lower(region, d)) {
-                        self.dr = Some(l);
-                        stats.bump("probe.backoff-step-expected");
+                    match self.dr.map(|d| next_lower_masked(region, d, rec.snap_before.as_ref())) {
+                        Some(Lower::Dr(l)) => {
+                            self.dr = Some(l);
+                            stats.bump("probe.backoff-step-expected");
+                        }
+                        Some(Lower::Ambiguous) => {
+                            // follow the device for this step only
+                            self.dr = Some(rec.dr_after);
+                        }
+                        _ => {}
                     }
                 }
             }
@@ -222,7 +252,7 @@ impl Property for C12 {
     fn assumptions(&self) -> Vec<String> {
         vec![
             "after an ADR toggle, and after a Class C reception in the middle of a transaction, the count-dependent predictions (ADRACKReq, back-off) are suspended until the next downlink accepted in RX1/RX2; the unconditional bits stay checked".into(),
-            "'a lower data rate exists' means a lower LoRa data rate that the stack implements in the region".into(),
+            "'a lower data rate exists' means a lower LoRa data rate that the stack implements in the region and, in fixed plans, whose bandwidth class has enabled channels (at least two 125 kHz channels, or one 500 kHz channel; exactly one 125 kHz channel is treated as ambiguous)".into(),
             "data-rate changes commanded by accepted MAC commands are taken from the device (C08 checks them)".into(),
         ]
     }
@@ -277,6 +307,25 @@ impl C12 {
         let ups = rr::uplink_drs(cfg.region);
         if r.chance(3, 4) {
             ops.push(Op::SetDr(if r.chance(1, 2) { *ups.last().unwrap() } else { *r.pick(&ups) }));
+        }
+        if cfg.region.is_fixed() && r.chance(1, 3) {
+            // a sparse channel mask commanded by the network: the 500 kHz channels plus one to three
+            // 125 kHz channels (one LinkADRReq block), at the 500 kHz or at a 125 kHz data rate
+            let dr500 = *ups.last().unwrap();
+            let k = r.range(1, 3) as u32;
+            let mut m: u16 = 0;
+            while m.count_ones() < k {
+                m |= 1 << r.below(16);
+            }
+            let dr = if r.chance(2, 3) { dr500 } else { *r.pick(&ups) };
+            let mut d = DataSpec::plain(1);
+            d.fopts = vec![
+                MacSpec::LinkAdr { dr, pow: 15, mask: if r.chance(3, 4) { 0x00FF } else { 1 << r.below(8) }, ctl: 7, nbtrans: 1 },
+                MacSpec::LinkAdr { dr, pow: 15, mask: m, ctl: r.below(4) as u8, nbtrans: 1 },
+            ];
+            let mut t = Txn::default();
+            t.rx1.push(FrameSpec::Data(d));
+            ops.push(Op::Send { port: 1, len: 1, confirmed: false, txn: t });
         }
         let n = *r.pick(&[10usize, 30, 70, 100, 140, 200, 300, 400]);
         let dl_every = *r.pick(&[0u64, 0, 200, 90, 40, 10]);
